@@ -173,6 +173,7 @@ func vWitness(ctx sdk.Context, k Keeper, w *vWorld, did string) (string, types.D
 	}
 	wd := vNondetAtom("witnessDid")
 	vAssume(wd != did)
+	vAssume(wd != "") // stored DIDs passed ValidateBasic, hence are non-empty
 	has := vNondetBool("hasWitness")
 	var st types.DIDDocumentWithSeq
 	if has {
